@@ -420,8 +420,11 @@ type typ int
 const (
 	tS typ = iota
 	tI
-	tV // []vector3.Float64 (parameter.Vector3Array); sources only
-	tR // Rec; sources only
+	tV  // []vector3.Float64 (parameter.Vector3Array); sources only
+	tR  // Rec; sources only
+	tF  // float64; sources only (compared by bits: 0 and -0 are different values)
+	tFs // []float64; sources only
+	tM  // map[string]int; sources only
 )
 
 func (t typ) String() string {
@@ -432,6 +435,12 @@ func (t typ) String() string {
 		return "int"
 	case tV:
 		return "[]vector3.Float64"
+	case tF:
+		return "float64"
+	case tFs:
+		return "[]float64"
+	case tM:
+		return "map[string]int"
 	}
 	return "c11.Rec"
 }
@@ -467,6 +476,11 @@ const (
 	kChkS
 	kVFmt
 	kRFmt
+	kFBits
+	kFInv
+	kFAtan
+	kFsFmt
+	kMFmt
 )
 
 var kinds = []kind{
@@ -486,6 +500,11 @@ var kinds = []kind{
 	kChkS:  {name: "ChkS", out: tS, named: []inSpec{{"In", tS}}, fails: true},
 	kVFmt:  {name: "VFmt", out: tS, named: []inSpec{{"In", tV}}},
 	kRFmt:  {name: "RFmt", out: tS, named: []inSpec{{"In", tR}}},
+	kFBits: {name: "FBits", out: tS, named: []inSpec{{"In", tF}}},
+	kFInv:  {name: "FInv", out: tS, named: []inSpec{{"In", tF}}},
+	kFAtan: {name: "FAtan", out: tS, named: []inSpec{{"A", tF}, {"B", tF}}},
+	kFsFmt: {name: "FsFmt", out: tS, named: []inSpec{{"In", tFs}}},
+	kMFmt:  {name: "MFmt", out: tS, named: []inSpec{{"In", tM}}},
 }
 
 var eagerKinds = []int{kU1, kS2, kS3, kSArr, kSMix, kI2, kIArr, kSLen, kIFmt, kChkI, kChkS, kChkI, kChkS}
